@@ -28,6 +28,7 @@ type OblResult struct {
 	vc      *VC
 	applied int
 	inlined int
+	bounded []string // the obligation group was generated with loops cut at a fixed depth: refutation only
 }
 
 type Run struct {
@@ -103,6 +104,10 @@ func (r *Run) discharge(vcs []*VC) []*OblResult {
 			defer func() { <-sem }()
 			or := &OblResult{Name: vc.Name, Layer: vc.Layer, vc: vc}
 			r.noteExec(vc.Exec)
+			if vc.Exec != nil {
+				or.bounded = vc.Exec.bounded
+			}
+			defer or.demoteBounded()
 			if len(vc.Query.Goals) == 0 {
 				// everything folded to true during generation
 				or.Status, or.Backend = "discharged", "simplifier"
@@ -145,7 +150,7 @@ func (r *Run) discharge(vcs []*VC) []*OblResult {
 	// limit before they are reported (a timeout under load is not a verdict)
 	var again []int
 	for i, o := range out {
-		if o.Status == "undecided" {
+		if o.Status == "undecided" && o.bounded == nil {
 			again = append(again, i)
 		}
 	}
@@ -213,6 +218,8 @@ func (r *Run) pipeline(n int, gen func(i int) (*VC, error)) []*OblResult {
 		}
 		or := &OblResult{Name: vc.Name, Layer: vc.Layer, vc: &VC{Name: vc.Name, Layer: vc.Layer, Replay: vc.Replay, Info: vc.Info, caseIdx: i}}
 		or.applied, or.inlined = vc.Exec.applied, vc.Exec.inlined
+		or.bounded = vc.Exec.bounded
+		defer or.demoteBounded()
 		r.noteExec(vc.Exec)
 		if len(vc.Query.Goals) == 0 {
 			or.Status, or.Backend = "discharged", "simplifier"
@@ -276,7 +283,7 @@ func (r *Run) pipeline(n int, gen func(i int) (*VC, error)) []*OblResult {
 	}
 	var again []int
 	for i, o := range out {
-		if o != nil && o.Status == "undecided" {
+		if o != nil && o.Status == "undecided" && o.bounded == nil {
 			again = append(again, i)
 		}
 	}
@@ -300,6 +307,16 @@ func (r *Run) pipeline(n int, gen func(i int) (*VC, error)) []*OblResult {
 		}
 	}
 	return res
+}
+
+// demoteBounded: an obligation group generated from a bounded unrolling proves
+// nothing; its counterexamples still count if they replay on the real code.
+func (o *OblResult) demoteBounded() {
+	if o.bounded == nil || o.Status != "discharged" {
+		return
+	}
+	o.Status = "undecided"
+	o.Note = "bounded stand-in, no counterexample within the bound: " + strings.Join(o.bounded, "; ")
 }
 
 // vacuity (thorough tier): the hypotheses of an obligation group (the
@@ -334,6 +351,19 @@ func (r *Run) vacuity(vc *VC, file string) {
 func (r *Run) noteExec(x *Exec) {
 	if x == nil {
 		return
+	}
+	if len(x.bounded) > 0 {
+		r.mu.Lock()
+		for _, b := range x.bounded {
+			dup := false
+			for _, e := range r.Bounded {
+				dup = dup || e == b
+			}
+			if !dup {
+				r.Bounded = append(r.Bounded, b)
+			}
+		}
+		r.mu.Unlock()
 	}
 	r.mu.Lock()
 	defer r.mu.Unlock()
